@@ -29,9 +29,11 @@ EXPLANATION = (
     "cannot enter the next state without setting MAX_LENGTH to that state's limit; the three comparisons by which "
     'IntNStringReceiver.dataReceived cuts the stream are in exact normal form (either polarity) and prefix/payload slices '
     "are contiguous; every Argument subclass pairs its two directions; ListOf's prefix format and DateTime's %-format vs "
-    'slice table agree. A structural rule that cannot recognise a shape abstains with a note. BOUNDED second layer '
+    'slice table agree. in BinaryBoxProtocol.sendBox no site that can still refuse the box (a raise, a call of a validating '
+    'method, a step of a validating generator) is reachable after a transport write - a refused box leaves nothing on the wire. '
+    'A structural rule that cannot recognise a shape abstains with a note. BOUNDED second layer '
     '(interpreted code, verdict about the listed inputs): serialize outputs parsed back by an independent parser, 255/256 '
-    'and 65535/65536-byte items, non-bytes keys/values refused, the empty key refused (finding F30, repaired by commit '
+    'and 65535/65536-byte items, non-bytes keys/values refused, a refused box followed by a good box on the same transport (generators interpreted lazily), the empty key refused (finding F30, repaired by commit '
     '3d4becf: reverting the refusal is a self-test mutant reported on the finding\'s construct); the reader pipeline fed a multi-box stream at every '
     'cut, byte by byte and at pairs of cuts, key limit in force as first and second key; value round trips of Integer, '
     'String, Unicode, Boolean, Float, Decimal, DateTime (18 UTC offsets), ListOf (empty elements everywhere, nested), '
@@ -44,6 +46,8 @@ RULE_KINDS = {
     "box/length-prefix-width": "structural", "box/guards-dominate-writes": "structural", "box/no-coercion": "structural", "limits/": "structural", "framing/prefix": "structural",
     "framing/boundary-normal-form": "structural", "framing/slices-contiguous": "structural", "reader/class-shape": "structural", "reader/limit-toggle": "structural",
     "argument/pairing": "structural", "argument/list-prefix-table": "structural", "datetime/layout-table": "structural",
+    "send/refused-box-writes-nothing": "structural",   # no refusing site reachable after a transport write in sendBox (CFG reachability)
+    "send/refused-box-then-good-box": "bounded",
     # bounded: the code interpreted on enumerated inputs / stream segmentations
     "box/wire-form": "bounded", "box/key-length-upper-bound": "bounded", "box/value-length-upper-bound": "bounded", "box/refuses-non-bytes-evaluated": "bounded",
     "box/key-length-lower-bound": "bounded", "reader/boxes-parsed-back": "bounded", "reader/split-invariance": "bounded", "reader/limits": "bounded",
@@ -671,6 +675,138 @@ def _struct_codec_tables(ctx, mod, consts):
                       f"the writer puts the sign at character {signs[0][1]}; the reader reads {src(idx[0])}")
 
 
+def _raising_methods(mod) -> Dict[str, List[Tuple[ast.ClassDef, ast.FunctionDef, bool]]]:
+    """Method name -> [(class, def, is generator)] for the methods of the module's classes whose body (private helpers of the same class followed)
+    contains a raise statement: calling them - or, for a generator, advancing it - may refuse the box."""
+    out: Dict[str, List[Tuple[ast.ClassDef, ast.FunctionDef, bool]]] = {}
+    for c in [x for x in mod.tree.body if isinstance(x, ast.ClassDef)]:
+        ms = methods(c)
+        memo: Dict[str, bool] = {}
+
+        def raises(name: str, stack=()) -> bool:
+            if name in memo:
+                return memo[name]
+            if name in stack or name not in ms:
+                return False
+            f = ms[name]
+            r = any(isinstance(n, ast.Raise) for n in ast.walk(f))
+            if not r:
+                for n in ast.walk(f):
+                    if isinstance(n, ast.Call) and isinstance(n.func, ast.Attribute) and isinstance(n.func.value, ast.Name) and n.func.value.id in ("self", "cls") and raises(n.func.attr, stack + (name,)):
+                        r = True
+                        break
+            memo[name] = r
+            return r
+        for name, f in ms.items():
+            if raises(name):
+                gen = any(isinstance(n, (ast.Yield, ast.YieldFrom)) for n in ast.walk(f))
+                out.setdefault(name, []).append((c, f, gen))
+    return out
+
+
+def _struct_send_atomic(ctx, mod, consts):
+    """A refused box leaves nothing on the wire: in BinaryBoxProtocol.sendBox (private helpers followed) no site that can still refuse the box - a raise
+    statement, a call of a validating method of the box, a step of a validating generator - is reachable once a transport write has been executed."""
+    from sa.props._lib_g import single_defs
+    cls = ctx.cls(AMP, "BinaryBoxProtocol")
+    entry = ctx.func(AMP, "BinaryBoxProtocol.sendBox")
+    ms = methods(cls)
+    raising = _raising_methods(mod)
+    todo, seen = [entry], []
+    while todo:
+        f = todo.pop()
+        if any(f is x for x in seen):
+            continue
+        seen.append(f)
+        for c in ast.walk(f):
+            if isinstance(c, ast.Call) and isinstance(c.func, ast.Attribute) and isinstance(c.func.value, ast.Name) and c.func.value.id == "self" and c.func.attr.startswith("_") and c.func.attr in ms:
+                todo.append(ms[c.func.attr])
+    n_writes = 0
+    for f in seen:
+        q = f"{QA}.BinaryBoxProtocol.{f.name}"
+        g = ctx.cfg(f)
+        defs = single_defs(f)
+
+        def is_transport(e) -> bool:
+            if isinstance(e, ast.Name) and e.id in defs:
+                return is_transport(defs[e.id])
+            return isinstance(e, ast.Attribute) and e.attr == "transport" and isinstance(e.value, ast.Name) and e.value.id == "self"
+
+        def is_write(c) -> bool:
+            if not isinstance(c, ast.Call):
+                return False
+            fn = c.func
+            if isinstance(fn, ast.Name) and fn.id in defs:
+                fn = defs[fn.id]
+            return isinstance(fn, ast.Attribute) and fn.attr in ("write", "writeSequence") and is_transport(fn.value)
+
+        def validating_call(c) -> Optional[Tuple[str, bool]]:
+            if isinstance(c, ast.Call) and isinstance(c.func, ast.Attribute) and c.func.attr in raising and not (isinstance(c.func.value, ast.Name) and c.func.value.id == "self"):
+                gens = [gen for _, _, gen in raising[c.func.attr]]
+                return c.func.attr, all(gens)
+            return None
+
+        writes = g.find(is_write)
+        n_writes += len(writes)
+        if not writes:
+            continue
+        refusing: Dict[int, str] = {}
+        for i in g.ids(lambda n: n.ast is not None):
+            node = g.node(i)
+            if node.kind == "stmt" and isinstance(node.ast, ast.Raise):
+                refusing[i] = src(node.ast).split("\n")[0]
+        for c in [x for x in ast.walk(f) if isinstance(x, ast.Call)]:
+            vc = validating_call(c)
+            if vc is None:
+                continue
+            name, is_gen = vc
+            if not is_gen:
+                for i in g.ids_of(c):
+                    refusing[i] = f"{src(c)} (validates the box: may raise)"
+            else:
+                # the generator's validation runs at every step of the loop that consumes it
+                for lp in [x for x in ast.walk(f) if isinstance(x, (ast.For, ast.comprehension))]:
+                    it = lp.iter
+                    if isinstance(it, ast.Name) and it.id in defs:
+                        it = defs[it.id]
+                    if it is c or src(it) == src(c):
+                        for i in g.ids(lambda n, lp=lp: n.ast is lp):
+                            refusing[i] = f"next step of the generator {src(c)} (validates entry by entry: may raise)"
+                        for i in g.ids_of(lp.iter):
+                            refusing.setdefault(i, f"next step of the generator {src(c)} (validates entry by entry: may raise)")
+        for w in writes:
+            cons = ctx.construct(q, g.node(w).ast) if not isinstance(g.node(w).ast, ast.Call) else f"{q} | {src(g.node(w).ast)}"
+            starts = [d for d, l in g.succ[w] if l != "exc"]
+            hit = g.path(starts, list(refusing), edge_ok=lambda a, b, l: l != "exc") if refusing and starts else None
+            ctx.check(hit is None, "send/refused-box-writes-nothing", cons,
+                      "after this transport write the box can still be refused (" + (refusing.get(hit[-1], "?") if hit else "") + "): the entries already written stay on the wire "
+                      "without a terminator, so the peer parses the next box as a continuation of the refused one", witness=g.describe(hit) if hit else "")
+    ctx.floor("send/refused-box-writes-nothing", n_writes, 1, "transport writes reachable from sendBox")
+
+
+def check_send_refusal(ctx, mod, consts):
+    """Bounded: a box refused by sendBox (bad entry sorting after good ones), then a good box - the transport holds exactly the good box."""
+    ev = _ev(ctx, mod, consts)
+    box_cls = ctx.cls(AMP, "AmpBox")
+    q = QA + ".BinaryBoxProtocol.sendBox"
+    good = {b"_ask": b"2", b"_command": b"ping"}
+    cases = [("overlong key after valid entries", {b"alpha": b"1", b"z" * 256: b"2"}), ("overlong value after valid entries", {b"a": b"1", b"b": b"x" * 65536}),
+             ("text value after valid entries", {b"a": b"1", b"b": "text"}), ("empty key before valid entries", {b"": b"1", b"b": b"2"})]
+    for label, bad in cases:
+        tr = Stub("transport")
+        proto = Inst(ctx.cls(AMP, "BinaryBoxProtocol"), boxReceiver=Stub("receiver"), transport=tr)
+        k, r = run_eval(lambda: ev.method(proto, "sendBox", [DictInst(box_cls, data=dict(bad))]))
+        _need(k, r, "BinaryBoxProtocol.sendBox")
+        wrote = b"".join(bytes(x) for name, a, _ in tr.calls if name in ("write", "writeSequence") for x in (a[0] if name == "writeSequence" else [a[0]]))
+        k2, r2 = run_eval(lambda: ev.method(proto, "sendBox", [DictInst(box_cls, data=dict(good))]))
+        _need(k2, r2, "BinaryBoxProtocol.sendBox")
+        allw = b"".join(bytes(x) for name, a, _ in tr.calls if name in ("write", "writeSequence") for x in (a[0] if name == "writeSequence" else [a[0]]))
+        back = oracle_parse(allw)
+        ctx.check(k == "raised" and wrote == b"" and k2 == "value" and back == [good], "send/refused-box-then-good-box", q + f" | {label}",
+                  f"a box with an {label} is {'refused (' + str(r) + ')' if k == 'raised' else 'accepted'} after {len(wrote)} bytes of it reached the transport; the well-formed box sent next is read "
+                  f"back by an independent parser as {back!r} instead of [{good!r}]")
+
+
 def _parse_percent(fmt: str):
     """[(kind, start, end)] for a %-format made of %0Ni / %0Nd (fixed width N), %s (one char) and literals; None otherwise."""
     out, pos, i = [], 0, 0
@@ -712,8 +848,12 @@ def check(ctx):
         _struct_framing(ctx, consts)
     with ctx.section("structural: codec tables"):
         _struct_codec_tables(ctx, mod, consts)
+    with ctx.section("structural: sendBox is atomic"):
+        _struct_send_atomic(ctx, mod, consts)
     with ctx.section("AmpBox.serialize"):
         check_writer(ctx, mod, consts)
+    with ctx.section("sendBox refusal"):
+        check_send_refusal(ctx, mod, consts)
     with ctx.section("limits"):
         check_limits(ctx, mod, consts)
     with ctx.section("BinaryBoxProtocol reader"):
@@ -727,7 +867,18 @@ def check(ctx):
         check_boxes_of_arguments(ctx, mod, consts)
 
 
+_SER_HEAD = "        i = sorted(self.items())\n        L = []\n        w = L.append\n        for k, v in i:\n"
+_SER_GEN_HEAD = "        return b\"\".join(self._serializedParts())\n\n    def _serializedParts(self):\n        for k, v in sorted(self.items()):\n"
+_SER_TAIL = "            for kv in k, v:\n                w(pack(\"!H\", len(kv)))\n                w(kv)\n        w(pack(\"!H\", 0))\n        return b\"\".join(L)\n"
+_SER_GEN_TAIL = "            for kv in k, v:\n                yield pack(\"!H\", len(kv))\n                yield kv\n        yield pack(\"!H\", 0)\n"
+
 MUTANTS = [
+    # a refused box leaves nothing on the wire
+    Mutant("sendbox-writes-entry-by-entry", AMP, "            self.transport.write(box.serialize())\n",
+           "            for key in sorted(box):\n                self.transport.write(AmpBox({key: box[key]}).serialize()[:-2])\n            self.transport.write(b\"\\x00\\x00\")\n",
+           expect_rule="send/refused-box-writes-nothing"),
+    Mutant("sendbox-streams-a-validating-generator", AMP, "            self.transport.write(box.serialize())\n", "            parts = box._serializedParts()\n            for part in parts:\n                self.transport.write(part)\n",
+           more=[(AMP, _SER_HEAD, _SER_GEN_HEAD), (AMP, _SER_TAIL, _SER_GEN_TAIL)], expect_rule="send/refused-box-writes-nothing"),
     Mutant("key-limit-boundary", AMP, "            if len(k) > MAX_KEY_LENGTH:\n", "            if len(k) >= MAX_KEY_LENGTH:\n", expect_rule="box/key-length-upper-bound"),
     Mutant("overlong-key-skipped-silently", AMP, "            if len(k) > MAX_KEY_LENGTH:\n                raise TooLong(True, True, k, None)\n",
            "            if len(k) > MAX_KEY_LENGTH:\n                continue\n", expect_rule="box/key-length-upper-bound"),
@@ -783,6 +934,10 @@ MUTANTS = [
 ]
 
 SILENT = [
+    Silent("serialize-joins-a-validating-generator", AMP, _SER_HEAD, _SER_GEN_HEAD, more=[(AMP, _SER_TAIL, _SER_GEN_TAIL)]),
+    Silent("sendbox-exhausts-the-generator-before-writing", AMP, "            self.transport.write(box.serialize())\n", "            self.transport.writeSequence(list(box._serializedParts()))\n",
+           more=[(AMP, _SER_HEAD, _SER_GEN_HEAD), (AMP, _SER_TAIL, _SER_GEN_TAIL)]),
+    Silent("sendbox-serialises-into-a-local-first", AMP, "            self.transport.write(box.serialize())\n", "            wire = box.serialize()\n            write = self.transport.write\n            write(wire)\n"),
     Silent("serialize-unrolled-with-temporaries", AMP, "            if len(k) > MAX_KEY_LENGTH:\n                raise TooLong(True, True, k, None)\n            if len(v) > MAX_VALUE_LENGTH:\n                raise TooLong(False, True, v, k)\n            for kv in k, v:\n                w(pack(\"!H\", len(kv)))\n                w(kv)\n",
            "            nk = len(k)\n            if MAX_KEY_LENGTH < nk:\n                raise TooLong(True, True, k, None)\n            nv = len(v)\n            if MAX_VALUE_LENGTH < nv:\n                raise TooLong(False, True, v, k)\n            L.extend((pack(\"!H\", nk), k, pack(\"!H\", nv), v))\n"),
     Silent("proto-key-guard-clause", AMP, "        if string:\n            self._currentKey = string\n            self.MAX_LENGTH = self._MAX_VALUE_LENGTH\n            return \"value\"\n        else:\n            self.boxReceiver.ampBoxReceived(self._currentBox)\n            self._currentBox = None\n            return \"init\"\n",
